@@ -60,7 +60,8 @@ def main():
                 continue
             meta = json.load(open(mp))
             jobs.append((name, os.path.join(d, name, "patch.diff"), meta.get("checks_to_run", [meta["property"]]), meta["property"]))
-        out = os.path.join(d, "RESULTS.md")
+        # a partial run must not overwrite the complete table
+        out = os.path.join(d, "RESULTS.md") if not only else os.path.join(VERIF, "work", "RESULTS.partial.md")
     else:
         jobs.append((os.path.basename(a[0]), os.path.abspath(a[0]), a[1:], " ".join(a[1:])))
         out = None
